@@ -63,6 +63,12 @@ FLOORS = {
     'sweep:string:empty:success': (0.6, 'sweep:string:empty:call'), 'sweep:string:astral:success': (0.6, 'sweep:string:astral:call'),
     'sweep:seq:empty:success': (0.6, 'sweep:seq:empty:call'), 'sweep:seq:long:success': (0.6, 'sweep:seq:long:call'),
     'sig:item-call': (0.95, 'sig:success'),
+    'schema:nilled-item': (0.25, 'schema:pair'), 'schema:type-argument': (0.6, 'schema:pair'),
+    'schema:nillable-type-argument': (0.2, 'schema:pair'),
+    'sig:cfg:compat20': (0.01, 'sig:call'), 'sig:cfg:compat30': (0.01, 'sig:call'), 'sig:cfg:compat31': (0.01, 'sig:call'),
+    'sig:cfg:xsd11': (0.01, 'sig:call'), 'sig:cfg:nonstrict': (0.01, 'sig:call'), 'sig:cfg:defns': (0.01, 'sig:call'),
+    'sweep:node:text:success': (0.6, 'sweep:node:text:call'), 'sweep:node:comment:success': (0.6, 'sweep:node:comment:call'),
+    'sweep:node:document:success': (0.6, 'sweep:node:document:call'),
     'gen:premises-hold': (0.15, 'gen:triple'),
 }
 
